@@ -70,15 +70,40 @@ type liveRun struct {
 	redelivered bool
 }
 
+// noteRow watches the have: rows written by the live index.
+func (l *liveRun) noteRow(k, v string) {
+	if strings.HasPrefix(k, "have:") && !strings.HasSuffix(v, "|indexed") {
+		l.mu.Lock()
+		l.everPartial[k[len("have:"):]] = true
+		l.mu.Unlock()
+	}
+}
+
+// restartLive is a restart that goes on receiving blobs: a live server again.
+func restartLive(kind *kvKind, u *universe, rows sorted.KeyValue, src *hs.Mem, delivered []hs.Blob) (*liveRun, error) {
+	l := &liveRun{u: u, kind: kind, set: u.set, delivered: map[blob.Ref]int{}, everPartial: map[string]bool{}}
+	for _, b := range delivered {
+		l.delivered[b.Ref]++
+	}
+	// blobs stored partially before the restart
+	it := rows.Find("have:", "have;")
+	for it.Next() {
+		l.noteRow(it.Key(), it.Value())
+	}
+	if err := it.Close(); err != nil {
+		return nil, err
+	}
+	in, err := restartWith(kind, u.set, rows, src, nil, nil, l.noteRow)
+	if err != nil {
+		return nil, err
+	}
+	l.inst = in
+	return l, nil
+}
+
 func newLive(kind *kvKind, u *universe) (*liveRun, error) {
 	l := &liveRun{u: u, kind: kind, set: u.set, delivered: map[blob.Ref]int{}, everPartial: map[string]bool{}}
-	st, err := kind.open("", func(k, v string) {
-		if strings.HasPrefix(k, "have:") && !strings.HasSuffix(v, "|indexed") {
-			l.mu.Lock()
-			l.everPartial[k[len("have:"):]] = true
-			l.mu.Unlock()
-		}
-	})
+	st, err := kind.open("", l.noteRow)
 	if err != nil {
 		return nil, err
 	}
@@ -133,9 +158,20 @@ func (l *liveRun) pattern() string {
 // store of the same kind. (Closing and reopening the very same file is the
 // separate reopen-same-file comparison at the end of every history.)
 func restart(kind *kvKind, set *Set, rows sorted.KeyValue, src *hs.Mem, filter func(k, v string) bool, extra map[string]string) (*inst, error) {
+	return restartWith(kind, set, rows, src, filter, extra, nil)
+}
+
+func restartWith(kind *kvKind, set *Set, rows sorted.KeyValue, src *hs.Mem, filter func(k, v string) bool, extra map[string]string, onSet func(k, v string)) (*inst, error) {
 	st, err := kind.open("", nil)
 	if err != nil {
 		return nil, err
+	}
+	if w, ok := st.kv.(*wrapKV); ok {
+		defer func() { w.onSet = onSet }() // watch only what the index writes, not the copy
+	} else if onSet != nil {
+		st.kv = &wrapKV{raw: st.raw, via: func(f func()) { f() }}
+		w := st.kv.(*wrapKV)
+		defer func() { w.onSet = onSet }()
 	}
 	it := rows.Find("", "")
 	for it.Next() {
@@ -340,8 +376,8 @@ func (l *liveRun) findings(scn string, lobs []ob, diffs []diff) ([]finding, erro
 	var order []string
 	for i, d := range diffs {
 		class := labels[i]
-		if scn != "" {
-			class = scn + ":" + class
+		if scn != "" && strings.HasPrefix(class, l.set.Name+":") {
+			class = scn + ":" + class // an unexplained difference keeps the scenario in its class
 		}
 		sig := "C06|" + l.kind.Name + "|" + d.M + "|" + class
 		f := by[sig]
